@@ -349,6 +349,23 @@ func ccWaitersCase(c *mon.Case) {
 			}
 		})
 	}
+	// a WatchChanges observer: every delivered value differs from the previous one and is the cell's content
+	watchCtx, watchCancel := context.WithCancel(context.Background())
+	defer watchCancel()
+	var watched []int
+	var watchMu sync.Mutex
+	var watchErr error
+	var watchDone atomic.Bool
+	c.Go("watcher", func() {
+		<-start
+		watchErr = ccontainer.WatchChanges[int](watchCtx, initial, ctr, func(v int) error {
+			watchMu.Lock()
+			watched = append(watched, v)
+			watchMu.Unlock()
+			return nil
+		}, nil)
+		watchDone.Store(true)
+	})
 	// cancels and error-channel deliveries racing the writes
 	c.Go("disturber", func() {
 		<-start
@@ -408,6 +425,33 @@ func ccWaitersCase(c *mon.Case) {
 			}
 		}
 	}
+	// the watcher has seen the final content (or something equal to it) by now
+	watchMu.Lock()
+	last := initial
+	prev := initial
+	for i, v := range watched {
+		if cmp(prev, v) {
+			c.Violate("ccontainer", "watchchanges-delivered-equal-value", "WatchChanges delivered %d right after %d, which the container's comparison treats as equal (delivery %d, eq kind %d)", v, prev, i, eqKind)
+		}
+		prev = v
+		last = v
+	}
+	nWatched := len(watched)
+	watchMu.Unlock()
+	c.Count("watchchanges_deliveries", int64(nWatched))
+	if !cmp(last, final) && !watchDone.Load() {
+		if mon.QuiesceConfirmed(50*time.Millisecond, 5*time.Second) {
+			watchMu.Lock()
+			if len(watched) > 0 {
+				last = watched[len(watched)-1]
+			}
+			watchMu.Unlock()
+			if !cmp(last, final) {
+				c.Violate("lost-wakeup", "watchchanges-missed-final-value", "WatchChanges last delivered %d but the cell holds %d at quiescence (eq kind %d, %d deliveries)", last, final, eqKind, nWatched)
+			}
+		}
+	}
+	watchCancel()
 	for _, wr := range waiters {
 		if !wr.returned.Load() && wr.cancelStamp.Load() == 0 {
 			wr.cancelStamp.Store(c.Stamp())
@@ -420,8 +464,22 @@ func ccWaitersCase(c *mon.Case) {
 		}
 		return
 	}
+	if watchErr != context.Canceled {
+		c.Violate("ccontainer", "watchchanges-result", "WatchChanges returned %v after its context was cancelled, want context.Canceled", watchErr)
+	}
 	wmu.Lock()
 	defer wmu.Unlock()
+	for _, v := range watched {
+		found := v == initial
+		for i := range writes {
+			if writes[i].val == v {
+				found = true
+			}
+		}
+		if !found {
+			c.Violate("ccontainer", "watchchanges-foreign-value", "WatchChanges delivered %d, which nobody wrote", v)
+		}
+	}
 	for _, wr := range waiters {
 		c.Count("waiter_returns_judged", 1)
 		if wr.err != nil {
